@@ -70,10 +70,10 @@ CHECKS = {
         'assumptions': T_ASSUME,
     },
     'C05': {
-        'units': lambda t: [u_exc(t, 0), u_exc(t, 1), u_exc(t, 2), u_exc(t, 4), u_exc(t, 5), u_conv(t)],
+        'units': lambda t: [u_exc(t, 0), u_exc(t, 1), u_exc(t, 2), u_exc(t, 4), u_exc(t, 5), u_conv(t), dict(plain_unit('u_c05_names', 'units/c05_names.cpp', t, opt='-O0'), shards=1)],
         'rule': 'tables over must/if_must/if_must_else/opt_must/star_must/list_must/raise/raise_message/try_catch_* (8 variants) nested with the classical '
                 'operators; holes may throw parse_error, a std::exception and a foreign type; actions may throw (deviation bounded); three control '
-                'families plus two must_if controls (message table; explicit raise_on_failure); oracle: exception identity, message, position interval, what(), nesting',
+                'families plus two must_if controls (message table; explicit raise_on_failure); oracle: exception identity, message, position interval, what(), nesting; default messages for rules whose printed name contains each of the 95 printable characters',
         'assumptions': T_ASSUME,
     },
     'C04': {
@@ -84,9 +84,11 @@ CHECKS = {
         'assumptions': T_ASSUME,
     },
     'C08': {
-        'units': lambda t: [u_exc(t, 0), u_exc(t, 1), u_exc(t, 2), u_act(t, 0), u_act(t, 1), u_act(t, 2)],
+        'units': lambda t: [u_exc(t, 0), u_exc(t, 1), u_exc(t, 2), u_act(t, 0), u_act(t, 1), u_act(t, 2), t_unit('t_cov', 'COV', tier=t)],
         'rule': 'hook log of every execution of the exception and action spaces under three control families (with unwind, without unwind, all rules '
-                'visible) is run through the protocol automaton start;(apply|apply0)?;(success|failure|unwind) with proper nesting',
+                'visible) is run through the protocol automaton start;(apply|apply0)?;(success|failure|unwind) with proper nesting; the real coverage<> facility on tables of '
+                '<=3 rules with vetoing and throwing actions: start = success + failure + unwind for every rule and branch, and the per-rule counters equal the reference\'s number of attempts and outcomes, '
+                'also when an exception escapes coverage()',
         'assumptions': T_ASSUME,
     },
     'C03': {
